@@ -27,6 +27,10 @@ Sub-spaces (all enumerated completely):
   key-chains any first query followed by all queries; every ordered pair of queries adjacent inside one history
   key-sweeps long call histories (valid keys then invalid queries, the reverse, ascending, ...) in a fresh process
   interval-edits  one Interval edited in place (change_quality, attribute assignment), size read before/after
+  note-edits  one Note / GraceNote whose step, alter, octave are assigned in place, midi_pitch / alter_sign read before/after
+              (directly, on copies and deep copies)
+  tempo-edits one Tempo whose bpm / unit are assigned in place, microseconds_per_quarter read before/after
+  part-edits  notes and tempos of a small part edited in place, read through Part.note_array and save_score_midi
   code-forms clef and mode codes in every number form (python/numpy ints and floats) incl. the codes the library
              itself hands out (Part.clef_map, clef_feature column, Part.key_signature_map, ks_mode field)
 
@@ -48,7 +52,8 @@ RULE = (
     "construction; non-trivial = the implementation returned a value that was compared with the "
     "reference (a correct rejection of an invalid key/mode/interval also counts); history spaces: one case = one "
     "pair of queries, one all-pairs chain from one start query or one whole sweep (run in its own fresh process), or one edit "
-    "sequence of an Interval x all patterns of reading its size in between"
+    "sequence of an Interval x all patterns of reading its size in between; note-/tempo-/part-edits: one case = one start object x one "
+    "sequence of attribute assignments, evaluated for every pattern of reading the derived values before each assignment (states = patterns)"
 )
 ASSUMPTIONS = [
     "trusted base: C4 = 60, base pitch classes C D E F G A B = 0 2 4 5 7 9 11, line of fifths F C G D A E B, "
@@ -72,6 +77,10 @@ ASSUMPTIONS = [
     "A,AA as documented) or after assigning .quality/.number to another defined class, .semitones and transpose_note use the "
     "class the object has now; a change beyond dd/AA may be rejected (behaviour left open, history ends there); transpose_note "
     "is only claimed for direction up, number 1..7 and results with alteration in -2..2 (otherwise rejection or the right answer)",
+    "Note and Tempo are mutable objects with public attributes (step, alter, octave; bpm, unit): midi_pitch, alter_sign and "
+    "microseconds_per_quarter are the conversions of the attribute values the object has when they are read, whatever was read or assigned "
+    "before; copy.copy / copy.deepcopy of the object convert alike; Part.note_array (pitch and spelling columns) and save_score_midi (note_on "
+    "pitches, set_tempo values; a repeated equal tempo may be written once) report the objects as they are when called",
     "clef and mode codes are numbers: a code equal to an encoded one decodes alike as Python int, numpy integer, Python float "
     "or numpy float (the library itself hands codes out as int, int64, int32, float64 and float32); a number that is no "
     "clef code is rejected or - read as an inverse - decodes to a sign whose code is that number (never to another clef); "
@@ -2401,7 +2410,8 @@ def _tempoedit_cases(tier, seed):
         for u in TE_UNITS_ALL:
             for b in BPMS:
                 for e in all_edits:
-                    yield dict(k="tempoedit", start=[b, u], ops=[e])
+                    if tier != "quick" or e in core_edits or [b, u] in TE_STARTS_CORE:
+                        yield dict(k="tempoedit", start=[b, u], ops=[e])
         for start in TE_STARTS_CORE:
             for e1 in core_edits:
                 for e2 in core_edits:
@@ -2608,9 +2618,10 @@ def spaces(tier, seed):
                     "one Tempo object whose bpm / unit are assigned in place x every pattern of reading it before each assignment {not read, property, on a "
                     "copy, on a deep copy - continuing on the copy}; after the last assignment the object, a copy and a deep copy give "
                     "microseconds_per_quarter = round(60e6/(bpm*unit in quarters)) for the bpm and unit it has now. (1) one assignment: (57 units {None, 14 types x "
-                    "dots 0..3} x 10 bpm) x (10 bpm + 57 units); (2) two: 18 starts x (bpm {30,60,120,92.25} + units {None,q,h,h.,e..,256th...,long})^2; (3) three: "
+                    "dots 0..3} x 10 bpm) x %s; (2) two: 18 starts x (bpm {30,60,120,92.25} + units {None,q,h,h.,e..,256th...,long})^2; (3) three: "
                     "%d starts x (bpm {60,66.5} + units {None,h.,16th})^3; (4) two wide: the 18 starts x (67 assignments)^2%s"
-                    % (3 if tier == "quick" else 18, blk(TE_BLOCKS))))
+                    % ("(4 bpm + 7 units of (2)), and the 18 starts of (2) x (10 bpm + 57 units)" if tier == "quick" else "(10 bpm + 57 units)",
+                       3 if tier == "quick" else 18, blk(TE_BLOCKS))))
     sp.append(Space("part-edits", _partedit_cases(tier, seed), True,
                     "a part (4/4, three consecutive quarter notes, two Tempo objects at 0 and 2 quarters) whose notes / tempos are edited in place, read through "
                     "the library's consumers before each edit {not read, Part.note_array(include_pitch_spelling), save_score_midi} and through both after the "
